@@ -23,7 +23,7 @@ var (
 
 // Op is one operation of the alphabet.
 type Op struct {
-	Kind   string // create put del flush cancel reopen
+	Kind   string // create put del iterdel flush cancel reopen
 	Bucket int
 	Key    int
 	Val    int
@@ -37,6 +37,8 @@ func (o Op) String() string {
 		return fmt.Sprintf("put(%s,%s,%q)", Buckets[o.Bucket], Keys[o.Key], Values[o.Val])
 	case "del":
 		return fmt.Sprintf("del(%s,%s)", Buckets[o.Bucket], Keys[o.Key])
+	case "iterdel":
+		return "iterate-and-delete(" + Buckets[o.Bucket] + ")"
 	}
 	return o.Kind
 }
@@ -63,6 +65,10 @@ func Alphabet(reopen bool) []Op {
 			ops = append(ops, Op{Kind: "del", Bucket: b, Key: k})
 		}
 	}
+	// delete every key while iterating over the bucket (the pattern of chain/migrate.go)
+	for b := range Buckets {
+		ops = append(ops, Op{Kind: "iterdel", Bucket: b})
+	}
 	if reopen {
 		ops = append(ops, Op{Kind: "reopen"})
 	}
@@ -73,6 +79,7 @@ func Alphabet(reopen bool) []Op {
 type Model struct {
 	committed map[string]map[string]string
 	view      map[string]map[string]string
+	visited   []string // keys the last iterate-and-delete must have visited
 }
 
 func cloneKV(m map[string]map[string]string) map[string]map[string]string {
@@ -93,7 +100,7 @@ func NewModel() *Model {
 
 // Applicable reports whether op can be issued (put/del need an existing bucket).
 func (m *Model) Applicable(o Op) bool {
-	if o.Kind == "put" || o.Kind == "del" {
+	if o.Kind == "put" || o.Kind == "del" || o.Kind == "iterdel" {
 		return m.view[Buckets[o.Bucket]] != nil
 	}
 	return true
@@ -115,6 +122,13 @@ func (m *Model) Apply(o Op) (wantErr bool) {
 		m.view[Buckets[o.Bucket]][Keys[o.Key]] = v
 	case "del":
 		delete(m.view[Buckets[o.Bucket]], Keys[o.Key])
+	case "iterdel":
+		m.visited = m.visited[:0]
+		for k := range m.view[Buckets[o.Bucket]] {
+			m.visited = append(m.visited, k)
+		}
+		sort.Strings(m.visited)
+		m.view[Buckets[o.Bucket]] = map[string]string{}
 	case "flush", "reopen":
 		m.committed = cloneKV(m.view)
 	case "cancel":
@@ -300,6 +314,20 @@ func RunSeq(be Backend, dir string, seq []Op) (mm *Mismatch) {
 			gotErr = db.Bucket([]byte(Buckets[o.Bucket])).Put([]byte(Keys[o.Key]), val)
 		case "del":
 			gotErr = db.Bucket([]byte(Buckets[o.Bucket])).Delete([]byte(Keys[o.Key]))
+		case "iterdel":
+			bk := db.Bucket([]byte(Buckets[o.Bucket]))
+			var visited []string
+			for k := range bk.Iter() {
+				key := append([]byte(nil), k...)
+				visited = append(visited, string(key))
+				if err := bk.Delete(key); err != nil && gotErr == nil {
+					gotErr = err
+				}
+			}
+			sort.Strings(visited)
+			if got, want := fmt.Sprint(visited), fmt.Sprint(m.visited); got != want {
+				return &Mismatch{Step: i, Kind: "observe", Got: "iteration with deletion of each visited key visited " + got, Want: "every key once: " + want}
+			}
 		case "flush":
 			gotErr = db.Flush()
 		case "cancel":
